@@ -218,7 +218,9 @@ output_instance(std::ostream &out, int indent_level, CPPScope *scope,
 
   std::string bracketsstr = brackets.str();
 
-  if (prename.empty()) {
+  if (prename.find_first_of("*&") == std::string::npos) {
+    // No declarator operator in front of the name (at most the cv-qualifiers
+    // of a const array type, which apply to the elements).
     _element_type->output_instance(out, indent_level, scope, complete,
                                    prename, name + bracketsstr);
   } else {
